@@ -174,48 +174,94 @@ def run(F, R, tier):
     # ------------------------------------------------------------------ R2 backward field flow
     r2 = R.rule("C07-R2", "T5", "try_into_credential / try_into_presentation: every field of the result derives from the matching claim; only duplicated members are discarded")
     cred_discard = pres_discard = None
+
+    def flow(fn, claims_ty, inner_ty, inner_name, out_fields, want, label):
+        """On the decision table of a claims → value conversion: every accepting path returns a value each of whose fields is the whole
+        matching claim (Option-lifted, timestamps through their conversion oracle); returns the set of claim members that reach no
+        field on any accepting path (the discarded ones)."""
+        tab = SR.Table(F, fn, opaque=r"check_consistency$|to_issuance_date$|Timestamp::from_unix$", rule=r2, max_paths=6000)
+        members = {f["name"] for f in (F.adt_fields(claims_ty) or [])} - {inner_name}
+        members |= {inner_name + "." + f["name"] for f in (F.adt_fields(inner_ty) or [])}
+        used = set()
+
+        def mterm(path_):
+            t_ = SR.SELF
+            for seg in path_.split("."):
+                t_ = ("field", t_, seg)
+            return t_
+
+        def lifted(q, v, src):
+            """v is src itself, or None/Some(payload of src) according to the path's decision about src, or a conversion oracle of it"""
+            if v is None:
+                return False
+            if isinstance(v, sym.V) and v.name == "None" and not v.fields:
+                return q.variant.get(src) == "None"
+            if isinstance(v, sym.V) and v.name == "Some" and len(v.fields) == 1:
+                inner = sym.term(v.fields[0])
+                if SR.pure(inner, ("payload", src, "Some", 0)):
+                    return q.variant.get(src) == "Some"
+                # Some(from_unix(src!Some)!Ok)
+                if isinstance(inner, tuple) and inner[:1] == ("payload",) and isinstance(inner[1], tuple) and inner[1][:1] == ("call",) and inner[1][1].endswith("Timestamp::from_unix"):
+                    return len(inner[1][2]) == 1 and SR.pure(inner[1][2][0], ("payload", src, "Some", 0)) and inner[2] == "Ok"
+                return False
+            t_ = sym.term(v)
+            if SR.pure(t_, src):
+                return True
+            if isinstance(t_, tuple) and t_[:1] == ("payload",) and isinstance(t_[1], tuple) and t_[1][:1] == ("call",) and t_[1][1].endswith("to_issuance_date") and t_[2] == "Ok":
+                return len(t_[1][2]) == 1 and SR.pure(t_[1][2][0], src)
+            return False
+        n_ok = 0
+        for q in tab.ok():
+            cc = q.calls(r"check_consistency$")
+            r2.require(bool(cc) and q.succeeded(cc[0]) is True and SR.pure(cc[0].args[0], SR.SELF), (fn, "consistency-first"), "%s can succeed without check_consistency(self) ✓" % label)
+            out = q.ret.fields[0] if isinstance(q.ret, sym.V) and q.ret.fields else None
+            if not r2.require(isinstance(out, sym.St), (fn, "literal"), "%s does not return a value the evaluator can see field by field" % label):
+                continue
+            n_ok += 1
+            flat = {}
+            for k, v in out.f.items():
+                if k == "credential_subject" and isinstance(v, sym.V) and v.name == "One" and v.fields and isinstance(v.fields[0], sym.St):
+                    for k2, v2 in v.fields[0].f.items():
+                        flat["credential_subject." + k2] = v2
+                else:
+                    flat[k] = v
+            r2.require({k.split(".")[0] for k in flat} == set(out_fields), (fn, "literal-fields"), "%s does not set exactly the fields of the result type: %s" % (label, sorted(flat)))
+            for k, w in want.items():
+                src = mterm(w)
+                okf = lifted(q, flat.get(k), src)
+                r2.require(okf, (fn, "field", k), "%s field %s is %s, expected the whole claim %s" % (label, k, sym.fmt(sym.term(flat[k])) if k in flat else "missing", w))
+            for v in flat.values():
+                for x in sym.subterms(sym.term(v)):
+                    for m_ in members:
+                        if x == mterm(m_):
+                            used.add(m_)
+        for k, w in want.items():
+            r2.site("%s.%s ← claims.%s (whole value) on %d accepting path(s)" % (label, k, w, n_ok))
+        # a member counts as used when it or a sub-member of it flows
+        return {m_ for m_ in members if m_ not in used and not any(u.startswith(m_ + ".") for u in used)} if n_ok else None
+
     fn = CJ + "::CredentialJwtClaims::try_into_credential"
-    h = F.hir(fn)
-    if r2.anchor(h, fn):
-        env = H.Env(h)
-        lits = [s for s in H.struct_lits(h) if s.get("ty") == CRED]
-        if r2.require(len(lits) == 1, (fn, "literal"), "Credential literal not found"):
-            fo = field_origins(lits[0], env)
-            want = {
-                "context": ("self", "vc", "context"), "id": ("self", "jti"), "types": ("self", "vc", "types"),
-                "credential_subject.id": ("self", "sub"), "credential_subject.properties": ("self", "vc", "credential_subject", "properties"),
-                "issuer": ("self", "iss"), "issuance_date": ("self", "issuance_date"), "expiration_date": ("self", "exp"),
-                "credential_status": ("self", "vc", "credential_status"), "credential_schema": ("self", "vc", "credential_schema"),
-                "refresh_service": ("self", "vc", "refresh_service"), "terms_of_use": ("self", "vc", "terms_of_use"), "evidence": ("self", "vc", "evidence"),
-                "non_transferable": ("self", "vc", "non_transferable"), "properties": ("self", "vc", "properties"), "proof": ("self", "vc", "proof"),
-            }
-            for k, w in want.items():
-                oo = fo.get(k)
-                r2.site("credential.%s ← %s" % (k, sorted(map(str, oo or []))))
-                r2.require(oo == {("param",) + w}, (fn, "field", k), "credential field %s derives from %s, expected claims.%s" % (k, sorted(map(str, oo or [])), ".".join(w[1:])))
-            r2.require({k.split(".")[0] for k in fo} == set(cred_fields), (fn, "literal-fields"), "the Credential literal does not set exactly the Credential fields")
-        cred_discard = _discards(h, r2, fn, {CJ + "::CredentialJwtClaims": "", CJ + "::InnerCredential": "vc."})
-        r2.require(cred_discard == {"custom", "vc.id", "vc.issuance_date", "vc.issuer", "vc.expiration_date"}, (fn, "discards"),
-                   "try_into_credential discards %s; only custom (returned separately) and the duplicated vc members may be dropped" % sorted(cred_discard or []))
+    if r2.anchor(F.hir(fn), fn):
+        want = {
+            "context": "vc.context", "id": "jti", "types": "vc.types", "credential_subject.id": "sub", "credential_subject.properties": "vc.credential_subject.properties",
+            "issuer": "iss", "issuance_date": "issuance_date", "expiration_date": "exp", "credential_status": "vc.credential_status", "credential_schema": "vc.credential_schema",
+            "refresh_service": "vc.refresh_service", "terms_of_use": "vc.terms_of_use", "evidence": "vc.evidence", "non_transferable": "vc.non_transferable",
+            "properties": "vc.properties", "proof": "vc.proof",
+        }
+        cred_discard = flow(fn, CJ + "::CredentialJwtClaims", CJ + "::InnerCredential", "vc", cred_fields, want, "credential")
+        if cred_discard is not None:
+            cred_discard -= {"vc.credential_subject"} if "vc.credential_subject" in cred_discard else set()
+            r2.require(cred_discard == {"custom", "vc.id", "vc.issuance_date", "vc.issuer", "vc.expiration_date"}, (fn, "discards"),
+                       "try_into_credential discards %s; only custom (returned separately) and the duplicated vc members may be dropped" % sorted(cred_discard or []))
     fn = PJ + "::PresentationJwtClaims::try_into_presentation"
-    h = F.hir(fn)
-    if r2.anchor(h, fn):
-        env = H.Env(h)
-        lits = [s for s in H.struct_lits(h) if s.get("ty") == PRES]
-        if r2.require(len(lits) == 1, (fn, "literal"), "Presentation literal not found"):
-            fo = field_origins(lits[0], env)
-            want = {"context": ("self", "vp", "context"), "id": ("self", "jti"), "types": ("self", "vp", "types"),
-                    "verifiable_credential": ("self", "vp", "verifiable_credential"), "holder": ("self", "iss"), "refresh_service": ("self", "vp", "refresh_service"),
-                    "terms_of_use": ("self", "vp", "terms_of_use"), "properties": ("self", "vp", "properties"), "proof": ("self", "vp", "proof")}
-            for k, w in want.items():
-                oo = fo.get(k)
-                r2.site("presentation.%s ← %s" % (k, sorted(map(str, oo or []))))
-                r2.require(oo == {("param",) + w}, (fn, "field", k), "presentation field %s derives from %s, expected claims.%s" % (k, sorted(map(str, oo or [])), ".".join(w[1:])))
-            r2.require(set(fo) == set(pres_fields), (fn, "literal-fields"), "the Presentation literal does not set exactly the Presentation fields")
-        pres_discard = _discards(h, r2, fn, {PJ + "::PresentationJwtClaims": "", PJ + "::InnerPresentation": "vp."})
-        r2.require(pres_discard == {"exp", "issuance_date", "aud", "custom", "vp.id", "vp.holder"}, (fn, "discards"),
-                   "try_into_presentation discards %s; only exp/issuance_date/aud/custom (returned by the validator from the claims) and the duplicated vp members may be dropped" % sorted(pres_discard or []))
-    r2.floor(29)
+    if r2.anchor(F.hir(fn), fn):
+        want = {"context": "vp.context", "id": "jti", "types": "vp.types", "verifiable_credential": "vp.verifiable_credential", "holder": "iss", "refresh_service": "vp.refresh_service",
+                "terms_of_use": "vp.terms_of_use", "properties": "vp.properties", "proof": "vp.proof"}
+        pres_discard = flow(fn, PJ + "::PresentationJwtClaims", PJ + "::InnerPresentation", "vp", pres_fields, want, "presentation")
+        if pres_discard is not None:
+            r2.require(pres_discard == {"exp", "issuance_date", "aud", "custom", "vp.id", "vp.holder"}, (fn, "discards"),
+                       "try_into_presentation discards %s; only exp/issuance_date/aud/custom (returned by the validator from the claims) and the duplicated vp members may be dropped" % sorted(pres_discard or []))
+    r2.floor(25)
 
     # ------------------------------------------------------------------ R3 consistency before reconstruction
     r3 = R.rule("C07-R3", "T2+T5", "check_consistency ✓ dominates reconstruction; it compares exactly the discarded duplicated members; a present vc/vp member with an absent registered claim is rejected")
@@ -331,19 +377,31 @@ def run(F, R, tier):
         want = {("Some", None, "Ok"), ("Some", None, "Err"), ("None", "Some", "Ok"), ("None", "Some", "Err"), ("None", "None", "Err")}
         r4.require({(a, b, c) for a, b, c in rows if a == "None"} >= {x for x in want if x[0] == "None"} and any(a == "Some" and c == "Ok" for a, b, c in rows) or not tab.paths, (fn, "from_unix"),
                    "to_issuance_date does not convert both nbf and iat through Timestamp::from_unix: %s" % sorted(rows, key=str))
-    for fn, fields in ((CJ + "::CredentialJwtClaims::try_into_credential", ["expiration_date"]),):
-        h = F.hir(fn)
-        if h:
-            for n in H.walk(H.root(h)):
-                if n.get("k") == "struct" and n.get("ty") == CRED:
-                    for f in n["fields"]:
-                        if f["name"] == "expiration_date":
-                            fns = H.called_fns(f["e"])
-                            r4.site("expiration_date via %s" % sorted(L.short(x) for x in fns), f["e"].get("sp"))
-                            r4.require(TS + "::from_unix" in fns, (fn, "exp-from_unix"), "exp is not converted with Timestamp::from_unix (range gate)")
-                            r4.require(H.try_inner(f["e"]) is not None, (fn, "exp-propagated"), "the exp conversion error is not propagated with `?`")
-                        if f["name"] == "issuance_date":
-                            r4.require(H.try_inner(f["e"]) is not None and any(x.endswith("to_issuance_date") for x in H.called_fns(f["e"])), (fn, "issuance-propagated"), "issuance date is not to_issuance_date()?")
+    fn = CJ + "::CredentialJwtClaims::try_into_credential"
+    if F.hir(fn) is not None:
+        # on the decision table: a present exp goes through from_unix and a failing conversion (of exp or of the issuance date) is the
+        # function's error, never a silently absent date
+        tab = SR.Table(F, fn, opaque=r"check_consistency$|to_issuance_date$|Timestamp::from_unix$", rule=r4, max_paths=6000)
+        EXP = SR.fld("exp")
+        seen = set()
+        for q in tab.paths:
+            fu = [e for e in q.calls(r"Timestamp::from_unix$") if SR.pure(e.args[0], ("payload", EXP, "Some", 0))]
+            ti = [e for e in q.calls(r"to_issuance_date$") if SR.pure(e.args[0], SR.fld("issuance_date"))]
+            ok = SR.is_success(q.ret) and not SR.is_failure(q.ret)
+            if q.variant.get(EXP) == "Some":
+                if ok:
+                    r4.require(len(fu) == 1 and q.succeeded(fu[0]) is True, (fn, "exp-from_unix"), "exp is not converted with Timestamp::from_unix (range gate)")
+                    seen.add("exp-ok")
+                if fu and q.succeeded(fu[0]) is False:
+                    r4.require(not ok, (fn, "exp-propagated"), "the exp conversion error is not propagated")
+                    seen.add("exp-err")
+            if ti and q.succeeded(ti[0]) is False:
+                r4.require(not ok, (fn, "issuance-propagated"), "a failing to_issuance_date() does not fail the conversion")
+                seen.add("iss-err")
+            if ok:
+                r4.require(bool(ti) and q.succeeded(ti[0]) is True, (fn, "issuance-propagated"), "issuance date is not to_issuance_date()?")
+        r4.site("try_into_credential: exp → from_unix ✓ / error propagated; issuance date → to_issuance_date()?: %s" % sorted(seen))
+        r4.require({"exp-ok", "exp-err", "iss-err"} <= seen or not tab.paths, (fn, "exp-from_unix"), "the date conversions of try_into_credential do not show the rows Ok / exp error / issuance error: %s" % sorted(seen))
     # no other way from i64 to Timestamp in these modules (unwrap of from_unix etc.)
     for p in F.find(r"^identity_credential::(credential|presentation)::jwt_serialization::"):
         b = F.mir(p, follow_async=False)
